@@ -34,7 +34,8 @@ def emitted (Bs paths : List (List Nat)) (D : List Nat) : List (List Nat) :=
 /-- **C05**: the emitted cycles form a basis of the cycle space of the caller's graph -/
 theorem c05_basis (g : Graph) (hs : g.simpleB = true) (R D : List Nat) (Bs paths : List (List Nat))
     (h : Ingredients g R D Bs paths) : IsBasis g (emitted Bs paths D) := by
-  sorry
+  have _ := hs
+  exact Spanner.assembled_basis g R D Bs paths h.part h.bs_even h.bs_indep h.bs_spans h.plen h.pwalk
 
 /-- every emitted edge is an edge of the caller's graph (ids `< m`): translated through
 `_edge_spanner_to_g`, nothing refers to the temporary spanner graph -/
@@ -44,12 +45,12 @@ theorem c05_owner (g : Graph) (k : Nat) (R D : List Nat) (exactCycles paths : Li
     (cycles : List (List Nat)) (ret : Int)
     (hrun : approxRun g k R D exactCycles paths = .ok cycles ret) :
     (∀ c ∈ cycles, ∀ e ∈ c, e < g.m) ∧ ret = (cycles.map (wt g)).sum := by
-  sorry
+  exact Spanner.approxRun_owner g k R D exactCycles paths hR hD hex hp cycles ret hrun
 
 /-- **C06, k = 0**: rejected, nothing emitted -/
 theorem c06_k0 (g : Graph) (R D : List Nat) (exactCycles paths : List (List Nat)) :
     approxRun g 0 R D exactCycles paths = .error := by
-  sorry
+  simp [approxRun]
 
 /-- **C06, per-edge bound**: the cycle closed for a dropped edge `e` by a SHORTEST spanner path weighs at
 most `2k · w(e)`, i.e. the path at most `(2k-1) · w(e)` -/
@@ -59,7 +60,7 @@ theorem c06_edge_cycle (g : Graph) (hs : g.simpleB = true) (hp : g.positiveB = t
     (hshort : ∀ es : List Nat, (∀ f ∈ es, f ∈ (constructSpanner g k scan).1) →
         isWalk g es (g.src e) (g.tgt e) = true → listWeight g p ≤ listWeight g es) :
     listWeight g (edgeCycle p e) ≤ 2 * (k : Int) * g.weight e := by
-  sorry
+  exact Spanner.edge_cycle_bound g hs hp k hk scan hscan e he p hshort
 
 /- `c06_bound_partial`: the general guarantee `w(emitted) ≤ (2k-1) · w(B)` for every cycle basis `B` of `g`
 (Kavitha–Mehlhorn–Michail) needs a partition of an optimal basis and a system of distinct
